@@ -607,7 +607,11 @@ class ModulePrinter(ExpressionPrinter):
 
         if node.guard is not None:
             self.printer.keyword('if')
-            self.visit(node.guard)
+            if isinstance(node.guard, ast.NamedExpr):
+                # A guard is a named_expression, no parentheses required
+                self.visit(node.guard)
+            else:
+                self._expression(node.guard)
 
         self.printer.delimiter(':')
         self._suite(node.body)
